@@ -1352,7 +1352,9 @@ fn check_text<T: Tgt>(s: &str, c: &Case) -> Result<(), Bad> {
     }
     // [MD] FromF64: the f32 result is the f64 result converted (checked for non-literals; for
     // literals the rule above is the stronger one)
-    if !core_literal(t4) {
+    // (a literal is also what the option-off reading takes as a float: the standard library's
+    // lenient spellings and the Unicode blanks it trims, e.g. a no-break space around the digits)
+    if !core_literal(t4) && off.is_err() {
         match (&un, &n32) {
             (Ok(a), Ok(b)) if (*a as f32).same(*b) => {}
             (Err(_), Err(_)) => {}
